@@ -135,6 +135,87 @@ def e_aperture_mask_edge(inp):
     return out
 
 
+def _wcs():
+    from astropy.wcs import WCS
+    w = WCS(naxis=2)
+    w.wcs.crpix = [18.0, 15.0]; w.wcs.cdelt = [-2e-4, 2e-4]; w.wcs.crval = [40.0, -10.0]; w.wcs.ctype = ['RA---TAN', 'DEC--TAN']
+    return w
+
+
+def e_sky_apertures(inp):
+    import astropy.units as u
+    from photutils.aperture import (SkyCircularAnnulus, SkyCircularAperture, SkyEllipticalAnnulus, SkyEllipticalAperture, SkyRectangularAnnulus,
+                                    SkyRectangularAperture, aperture_photometry)
+    w = _wcs()
+    sky = w.pixel_to_world([p[0] for p in _positions()], [p[1] for p in _positions()])
+    a = 0.72 * u.arcsec
+    aps = [SkyCircularAperture(sky, 3 * a), SkyCircularAnnulus(sky, 3 * a, 5 * a), SkyEllipticalAperture(sky, 4 * a, 2 * a, theta=20 * u.deg),
+           SkyEllipticalAnnulus(sky, 2 * a, 5 * a, 3 * a, theta=20 * u.deg), SkyRectangularAperture(sky, 5 * a, 3 * a, theta=-30 * u.deg),
+           SkyRectangularAnnulus(sky, 3 * a, 6 * a, 4 * a, theta=10 * u.deg)]
+    t = aperture_photometry(inp['data'], aps, error=inp.get('error'), mask=inp.get('mask'), wcs=w)
+    return [t, [ap.to_pixel(w).positions for ap in aps[:2]]]
+
+
+def e_annuli(inp):
+    from photutils.aperture import ApertureStats, EllipticalAnnulus, RectangularAnnulus
+    out = []
+    for ap in (EllipticalAnnulus(_positions(), 2.0, 5.0, 3.0, theta=0.5), RectangularAnnulus(_positions() + [(0.0, 0.0)], 3.0, 6.0, 4.0, theta=-0.2)):
+        out += list(ap.do_photometry(inp['data'], error=inp.get('error'), mask=inp.get('mask'))) + [ap.area_overlap(inp['data'], mask=inp.get('mask'))]
+        st = ApertureStats(inp['data'], ap, error=inp.get('error'), mask=inp.get('mask'))
+        out += [st.sum, st.median, st.centroid]
+    return out
+
+
+def e_fit_gaussian(inp):
+    from photutils.psf import fit_2dgaussian, fit_fwhm
+    xy = _positions()
+    r = fit_2dgaussian(_sub(inp), xypos=xy, fwhm=3.5, fix_fwhm=False, fit_shape=(7, 7), mask=inp.get('mask'), error=inp.get('error'))
+    return [r.results, fit_fwhm(_sub(inp), xypos=xy, fit_shape=(7, 7), mask=inp.get('mask'), error=inp.get('error'))]
+
+
+def e_psf_matching(inp):
+    from photutils.psf.matching import CosineBellWindow, SplitCosineBellWindow, TopHatWindow, TukeyWindow, HanningWindow, create_matching_kernel, resize_psf
+    d = inp['data']
+    (x1, y1), (x2, y2) = [(int(round(p[0])), int(round(p[1]))) for p in _positions()[1:3]]
+    a, b = d[y1 - 5:y1 + 6, x1 - 5:x1 + 6], d[y2 - 5:y2 + 6, x2 - 5:x2 + 6]
+    out = [create_matching_kernel(a, b, window=wd) for wd in (None, CosineBellWindow(0.35), SplitCosineBellWindow(0.4, 0.3), TopHatWindow(0.5), TukeyWindow(0.4), HanningWindow())]
+    return out + [resize_psf(a, 0.1, 0.05), resize_psf(b, 0.1, 0.2, order=1)]
+
+
+def e_datasets(inp):
+    from photutils.datasets import apply_poisson_noise
+    d = inp['data']
+    nonneg = np.abs(_strip(d)) if not hasattr(d, 'unit') else np.abs(d)
+    return [apply_poisson_noise(nonneg, seed=5)]
+
+
+def e_harmonics(inp):
+    from photutils.isophote import fit_first_and_second_harmonics, fit_upper_harmonic
+    phi = np.linspace(0.0, 2 * np.pi, SHAPE[1], endpoint=False)
+    row = np.asarray(_strip(inp['data']))[8]
+    rr = inp['data'][8]
+    a = fit_first_and_second_harmonics(phi, rr)
+    b = fit_upper_harmonic(phi, rr, 3)
+    return [a[0], b[0]]
+
+
+def e_interpolators(inp):
+    from photutils.background import Background2D, BkgIDWInterpolator, BkgZoomInterpolator
+    out = []
+    for it in (BkgIDWInterpolator(), BkgZoomInterpolator(order=1), BkgZoomInterpolator(clip=False)):
+        b = Background2D(inp['data'], (6, 6), mask=inp.get('mask'), filter_size=3, interpolator=it, exclude_percentile=50.0)
+        out += [b.background, b.background_rms]
+    return out
+
+
+def e_segment_cutouts(inp):
+    segm = inp['segm']
+    out = []
+    for sg in segm.segments[:3]:
+        out += [sg.make_cutout(inp['data']), sg.make_cutout(inp['data'], masked_array=True), sg.data_ma]
+    return out
+
+
 def e_detect_threshold(inp):
     from photutils.segmentation import detect_threshold
     return [detect_threshold(inp['data'], 2.0, background=inp.get('bkg'), error=inp.get('error'), mask=inp.get('mask')),
@@ -419,6 +500,14 @@ ENTRIES = {
     'image_depth': dict(f=e_image_depth, uses=['data', 'mask']),
     'epsf': dict(f=e_epsf, uses=['data', 'error', 'mask']),
     'epsf_weights': dict(f=e_epsf, uses=['data', 'error', 'mask']),
+    'sky_apertures': dict(f=e_sky_apertures, uses=['data', 'error', 'mask']),
+    'annuli': dict(f=e_annuli, uses=['data', 'error', 'mask']),
+    'fit_gaussian': dict(f=e_fit_gaussian, uses=['data', 'error', 'mask']),
+    'psf_matching': dict(f=e_psf_matching, uses=['data']),
+    'datasets': dict(f=e_datasets, uses=['data']),
+    'harmonics': dict(f=e_harmonics, uses=['data']),
+    'interpolators': dict(f=e_interpolators, uses=['data', 'mask']),
+    'segment_cutouts': dict(f=e_segment_cutouts, uses=['data', 'segm']),
 }
 
 
